@@ -72,15 +72,10 @@ fn do_commit(w: &mut Writer, id: u8, fact_cache: u64) -> Commit {
         Ok(()) => {}
         Err(_) => panic!("commit failed on the fault-free file model"),
     }
-    // The committed state is readable through the public API before the crash (concrete run).
     let ho = match w.heads_offset() {
         Ok(o) => o,
         Err(_) => panic!("heads_offset after commit"),
     };
-    match w.heads() {
-        Ok(h) => assert!(h == hs),
-        Err(_) => panic!("heads after commit"),
-    }
     let HeadSetOffset(heads) = ho;
     Commit {
         mark: vf::fs().n,
@@ -141,6 +136,14 @@ fn crash_image(n: usize, fates: &[Fate; vf::MAXT]) -> Img {
         j += 1;
     }
     let mut img = fs.base;
+    // Constant lower bound of the crash image's size (see Img::size_lo): the size at the start
+    // of the run, or, for a run that starts with `create` on an empty file, the size established
+    // by create's fallocate + fsync (the callers assume n >= 2 in that case).
+    if (img.size == 0) & (t >= 2) {
+        if (fs.trace[0].kind == vf::K_FALLOC) & (fs.trace[1].kind == vf::K_FSYNC) {
+            img.size_lo = fs.trace[0].off;
+        }
+    }
     j = 0;
     while j < t {
         let ev = &fs.trace[j];
@@ -202,8 +205,12 @@ fn reopen_and_check(n: usize, c: &[Commit; 4], k: usize, deep: bool) {
     assert!(!vf::fs().out_of_model);
     assert_falloc_fsync();
     kani::assume(n <= vf::fs().n);
+    // Crashes before create's fallocate + fsync completed: c15_crash_during_create.
+    kani::assume((vf::fs().base.size > 0) | (n >= 2));
     let fates = any_fates();
     let img = crash_image(n, &fates);
+    assert!(img.size_lo <= img.size);
+    assert!(img.size_lo > 0);
 
     // Last commit that had returned when the crash happened (0 = none).
     let mut lr = 0usize;
@@ -221,8 +228,7 @@ fn reopen_and_check(n: usize, c: &[Commit; 4], k: usize, deep: bool) {
         Err(_) => {
             // open may fail only if no commit had returned
             assert!(lr == 0);
-            kani::cover!(n == 0, "crash before anything: open fails");
-            kani::cover!((n >= 2) & (n < c[1].mark), "crash inside first commit: open fails");
+            kani::cover!(n < c[1].mark, "crash inside first commit: open fails");
         }
         Ok(w) => {
             // Which commit was recovered?  (heads offsets are pairwise distinct.)
@@ -255,7 +261,7 @@ fn reopen_and_check(n: usize, c: &[Commit; 4], k: usize, deep: bool) {
             assert!(w.root.free_offset <= img.size);
             let x: usize = kani::any();
             kani::assume((x as i64) < c[got].end - vf::DATA);
-            assert!(img.d[x] == ghost.d[x]);
+            assert!(img.data(x) == ghost.data(x));
             // Data appended after the recovered commit is not visible: the frontier is exactly
             // the end of that commit's last record, so later records are unreferenced and are
             // overwritten by the next append.
@@ -294,6 +300,8 @@ fn reopen_and_check(n: usize, c: &[Commit; 4], k: usize, deep: bool) {
             core::mem::forget(w);
         }
     }
+    // No call left the file model (see vfile.rs: writes outside the windows, reads crossing EOF).
+    assert!(!vf::fs().out_of_model);
 }
 
 /// Under Kani `buggy::Bug::new` panics (debug assertions), so no `Bug` value ever exists and
@@ -398,6 +406,42 @@ fn c15_crash_after_torn_recovery() {
     c[2] = c3;
     let n: usize = kani::any();
     reopen_and_check(n, &c, 2, true);
+}
+
+/// Crash before create's fallocate + fsync completed: the file is empty or preallocated and
+/// zero-filled; no commit has returned, and reopening reports an error.
+#[kani::proof]
+#[kani::unwind(50)]
+#[kani::stub(<StorageError as core::convert::From<buggy::Bug>>::from, no_bug_values)]
+fn c15_crash_during_create() {
+    let w = fresh_writer();
+    core::mem::forget(w);
+    assert!(vf::fs().n == 2);
+    assert_falloc_fsync();
+    let full = vf::fs().vol.size;
+    // Did the unflushed preallocation reach the disk?  Two concrete cases (a symbolic file size
+    // would make every read's outcome symbolic for no gain).
+    let mut case = 0;
+    while case < 2 {
+        let kept = case == 1;
+        let mut img = Img::empty();
+        if kept {
+            img.size = full;
+            img.size_lo = full;
+        }
+        vf::restart_from(img);
+        match Writer::open(vf::fake_fd()) {
+            Ok(w) => {
+                core::mem::forget(w);
+                assert!(false);
+            }
+            Err(_) => {
+                kani::cover!(kept, "preallocated, no root: open fails");
+                kani::cover!(!kept, "empty file: open fails");
+            }
+        }
+        case += 1;
+    }
 }
 
 /// create; commit1; append; commit2 — crash anywhere.
